@@ -32,10 +32,20 @@ ASSUMPTIONS = [
 ]
 
 
-def fresh(L):
-    doc = list(range(100, 100 + L))
-    q = jsonpath.query("$[*]", doc)
-    model = [(m.path, m.obj) for m in jsonpath.finditer("$[*]", doc)]
+def fresh(L, dup=False):
+    """a live Query over a match sequence of length L and its model list.  dup=True: the sequence visits some
+    nodes more than once (a bracketed list with repeated indices), so views keyed by location must keep duplicates"""
+    if dup and L >= 2:
+        n = L // 2 + 1
+        doc = list(range(100, 100 + n))
+        idx = [(i * 2) % n if i % 3 else (i // 3) % n for i in range(L)]
+        text = "$[%s]" % ",".join(str(i) for i in idx)
+    else:
+        doc = list(range(100, 100 + L))
+        text = "$[*]"
+    q = jsonpath.query(text, doc)
+    model = [(m.path, m.obj) for m in jsonpath.finditer(text, doc)]
+    assert len(model) == L, (text, L, len(model))
     return q, model
 
 
@@ -81,7 +91,7 @@ def apply_chain(stats, L, chain):
                 elif op.startswith("take"):
                     q.take(n)
                 else:
-                    continue  # tee has no count semantics for -1 in the statement
+                    q.tee(n)
             except ValueError:
                 continue
             except Exception as e:  # noqa: BLE001
@@ -127,7 +137,7 @@ def t_chains(L, maxk=3, shard=0, nshards=1):
     stats = Stats()
     ns = sorted({-1, 0, 1, 2, L - 1, L, L + 1} - {-2})
     ns = [n for n in ns if n >= -1]
-    steps = [(op, n) for op in CHAIN_OPS for n in ns if not (op.startswith("tee") and n != 0)]
+    steps = [(op, n) for op in CHAIN_OPS for n in ns if not (op.startswith("tee") and n not in (0, -1))]
     n_chains = 0
     for k in range(1, maxk + 1):
         for ci, chain in enumerate(itertools.product(steps, repeat=k)):
@@ -147,10 +157,10 @@ def t_terminals():
     """first_one/one/last_one and the four views after every prefix operation"""
     stats = Stats()
     n = 0
-    for L in range(0, 6):
+    for L, dup in [(L, d) for L in range(0, 7) for d in (False, True)]:
         for pre in [()] + [((op, k),) for op in ("limit", "skip", "tail") for k in (0, 1, L, L + 1)]:
             for term in ("first_one", "one", "last_one", "values", "locations", "items", "pointers", "next-then-rest"):
-                q, model = fresh(L)
+                q, model = fresh(L, dup)
                 for op, k in pre:
                     COUNTED[op](q, k)
                     model = model_counted(op, model, k)
@@ -180,7 +190,7 @@ def t_terminals():
                         stats.fail("view:items", case, "items() differs")
                 elif term == "pointers":
                     got = [str(p) for p in q.pointers()]
-                    want = ["/%d" % (o - 100) for _, o in model]
+                    want = ["/" + p[2:-1] for p, _ in model]
                     if got != want:
                         stats.fail("view:pointers", case, "pointers() gives %s, expected %s" % (got, want))
                 else:
@@ -188,8 +198,8 @@ def t_terminals():
                         m = next(iter(q), None)
                         if m is None or key(m) != model[0] or drain(q) != model[1:]:
                             stats.fail("terminal:next", case, "next() then drain differs from the model")
-                stats.nt("terminal", L, repr(pre), term)
-    stats.subspaces.append({"name": "terminal operations and views after every single prefix operation, L = 0..5", "size": n, "exhaustive": True})
+                stats.nt("terminal", L, dup, repr(pre), term)
+    stats.subspaces.append({"name": "terminal operations and views after every single prefix operation, L = 0..6, with and without repeated nodes", "size": n, "exhaustive": True})
     return stats
 
 
@@ -204,18 +214,18 @@ class QueryMachine(RuleBasedStateMachine):
         self.pool = []  # [query, model]
         self.hist = []
 
-    @initialize(L=st.integers(0, 30))
-    def start(self, L):
-        q, model = fresh(L)
+    @initialize(L=st.integers(0, 30), dup=st.booleans())
+    def start(self, L, dup):
+        q, model = fresh(L, dup)
         self.pool = [[q, model]]
-        self.hist = [["start", L]]
+        self.hist = [["start", L, dup]]
 
     @precondition(lambda self: len(self.pool) < 3)
-    @rule(L=st.integers(0, 12))
-    def new_query(self, L):
-        q, model = fresh(L)
+    @rule(L=st.integers(0, 12), dup=st.booleans())
+    def new_query(self, L, dup):
+        q, model = fresh(L, dup)
         self.pool.append([q, model])
-        self.hist.append(["new", L])
+        self.hist.append(["new", L, dup])
 
     def _pick(self, i):
         return self.pool[i % len(self.pool)]
@@ -232,12 +242,12 @@ class QueryMachine(RuleBasedStateMachine):
         ent[1] = model_counted(op, ent[1], n)
 
     @precondition(lambda self: self.pool)
-    @rule(i=st.integers(0, 7), op=st.sampled_from(sorted(COUNTED) + ["take"]))
+    @rule(i=st.integers(0, 7), op=st.sampled_from(sorted(COUNTED) + ["take", "tee"]))
     def negative(self, i, op):
         ent = self._pick(i)
         self.hist.append([op, i % len(self.pool), -1])
         try:
-            (ent[0].take(-1) if op == "take" else COUNTED[op](ent[0], -1))
+            (ent[0].take(-1) if op == "take" else (ent[0].tee(-1) if op == "tee" else COUNTED[op](ent[0], -1)))
         except ValueError:
             return
         self._fail("negative:%s:accepted" % op, "%s(-1) did not raise ValueError after %s" % (op, self.hist))
@@ -346,17 +356,17 @@ def replay_history(stats, hist):
         op = step[0]
         stats.ev()
         if op == "start":
-            q, model = fresh(step[1])
+            q, model = fresh(step[1], step[2] if len(step) > 2 else False)
             pool = [[q, model]]
         elif op == "new":
-            q, model = fresh(step[1])
+            q, model = fresh(step[1], step[2] if len(step) > 2 else False)
             pool.append([q, model])
-        elif op in COUNTED or op == "take":
+        elif op in COUNTED or op == "take" or (op == "tee" and step[2] < 0):
             idx, n = step[1], step[2]
             ent = pool[idx]
             if n < 0:
                 try:
-                    (ent[0].take(-1) if op == "take" else COUNTED[op](ent[0], -1))
+                    (ent[0].take(-1) if op == "take" else (ent[0].tee(-1) if op == "tee" else COUNTED[op](ent[0], -1)))
                     stats.fail("negative:%s:accepted" % op, {"history": hist}, "%s(-1) accepted" % op)
                     return stats
                 except ValueError:
